@@ -203,6 +203,23 @@ static Result run_history(const Case &c, int mode) {
                 if (o.rc == 0) { if (o.out != s.s.frags[lost]) fail_at(step, "reconstruct returned a different fragment"); }
                 else if (demand) fail_at(step, "reconstruct failed rc=" + std::to_string(o.rc));
                 if (!fs.unchanged()) fail_at(step, "reconstruct modified an input");
+                // the same repair from a stripe written under the other checksum type (pure reference writer): the
+                // rebuilt fragment is governed by this instance's configuration, and the next encode is unaffected
+                if (((b >> 9) & 1) && mode != MODE_C14) {
+                    Config g2 = s.g; g2.ct = s.g.ct == CT_CRC32 ? CT_NONE : CT_CRC32;
+                    std::vector<uint8_t> data = data_for(s.g, salt);
+                    auto other = ref::serialize_stripe(g2, data.data(), data.size(), liberasurecode_get_version(), false);
+                    std::vector<const std::vector<uint8_t> *> frs2;
+                    for (int i = 0; i < n; i++) if (i != lost) frs2.push_back(&other[i]);
+                    FragSet fs2; fs2.build(frs2, al);
+                    ReconOut o2 = reconstruct(s.desc, fs2, other[0].size(), lost);
+                    if (o2.rc == 0) { if (o2.out != s.s.frags[lost]) fail_at(step, "reconstruct from a stripe written with another checksum type returned a fragment that differs from this instance's own: " + first_diff(o2.out, s.s.frags[lost])); }
+                    else if (demand) fail_at(step, "reconstruct from a stripe written with another checksum type failed rc=" + std::to_string(o2.rc));
+                    if (!fs2.unchanged()) fail_at(step, "reconstruct modified an input");
+                    Stripe again = encode(s.desc, s.g, data);
+                    if (again.rc != 0 || again.frags != s.s.frags) fail_at(step, "encode after a reconstruct of a foreign-checksum-type stripe differs from the same encode before it");
+                    w.counts["foreign_ct_rebuild"]++;
+                }
             }
             break;
         }
